@@ -26,15 +26,16 @@ Pat(p, n) == [j \in 1..n |->
     [] p = 5 -> (IF j = 1 THEN 0 ELSE 97)                                      \* NUL first
     [] p = 6 -> (IF j = n THEN 0 ELSE 98)                                      \* NUL last
     [] p = 7 -> 233
-    [] p = 8 -> 128512]
+    [] p = 8 -> 128512
+    [] p = 9 -> 49 + (j % 9)]                                                  \* digits 1..9 (number_chars)
 Lens == IF Quick THEN {0, 1, 2, 3, 7, 8, 9, 15, 16, 17} ELSE 0..17
-Pats == IF Quick THEN {1, 2, 3, 4} ELSE 1..8
+Pats == IF Quick THEN {1, 2, 3, 4, 9} ELSE 1..9
 Contents == { Pat(p, n) : p \in Pats, n \in Lens }
 Values == { [cs |-> c, tl |-> t] : c \in Contents, t \in {"nil", "var", "atom"} }
 
 (* ---- materialisations [m, k] and the heap representation the layout model assumes for them ---- *)
 M(m, k) == [m |-> m, k |-> k]
-SplitKs(n) == { k \in (IF Quick THEN {1, 3, n - 1} ELSE {1, 2, 3, 5, 7, 8, 9, n \div 2, n - 1}) : 1 <= k /\ k <= n - 1 }
+SplitKs(n) == { k \in (IF Quick THEN {1, 3, n - 1} ELSE {1, 3, 7, 8, 9, n - 1}) : 1 <= k /\ k <= n - 1 }
 SeqOf(S) == SortedOf(S)
 Mats(V) ==
   LET n == Len(V.cs)
@@ -60,16 +61,20 @@ HasP(chunks) == \E j \in DOMAIN chunks : chunks[j].kind = "p"
 TailVal(tl, id) == CASE tl = "nil" -> Val("nil", 0) [] tl = "var" -> Val("var", id) [] tl = "atom" -> Val("atom", 0)
 
 (* does the comparison of the two representations, as the code performs it, leave the path of the intended arithmetic? *)
-Astray(cs1, tl1, r1, cs2, tl2, r2) ==
-  /\ HasP(r1) /\ HasP(r2)
-  /\ LET w1 == WriteRepr(<<>>, r1, TailVal(tl1, 1))
-         w2 == WriteRepr(w1.mem, r2, TailVal(tl2, 2))
-     IN \/ WalkCmp(w2.mem, w1.root, w2.root, TRUE, 64) # WalkCmp(w2.mem, w1.root, w2.root, FALSE, 64)
-        \/ WalkCmp(w2.mem, w2.root, w1.root, TRUE, 64) # WalkCmp(w2.mem, w2.root, w1.root, FALSE, 64)
+(* (w1: the first representation already written) *)
+AstrayW(w1, tl2, r2) ==
+  LET w2 == WriteRepr(w1.mem, r2, TailVal(tl2, 2))
+  IN Walk(w2.mem, w1.root, w2.root, 64, FALSE).dev \/ Walk(w2.mem, w2.root, w1.root, 64, FALSE).dev
 
 ValueVector(V) ==
   LET mats == Mats(V)
       ps   == Partners(V)
+      (* the distinct representations of the value that contain a partial string, each written once *)
+      rvs  == { Repr(V.cs, mats[mi]) : mi \in 1..Len(mats) }
+      rps  == UNION { { <<pi, Repr(ps[pi].cs, PMats(ps[pi])[qi])>> : qi \in 1..Len(PMats(ps[pi])) } : pi \in 1..Len(ps) }
+      bad  == UNION { LET w1 == WriteRepr(<<>>, rv, TailVal(V.tl, 1))
+                      IN { <<rv, x[1], x[2]>> : x \in { y \in rps : HasP(y[2]) /\ AstrayW(w1, ps[y[1]].tl, y[2]) } }
+                      : rv \in { r \in rvs : HasP(r) } }
   IN [kind |-> "val", cs |-> V.cs, tl |-> V.tl,
       ops  |-> Ops(V),
       mats |-> mats,
@@ -77,7 +82,7 @@ ValueVector(V) ==
                                           exp |-> PairResult(V, ps[j]), pmats |-> PMats(ps[j])]],
       astray |-> { <<mi, pi, qi>> \in (1..Len(mats)) \X (1..Len(ps)) \X (1..3) :
                      /\ qi <= Len(PMats(ps[pi]))
-                     /\ Astray(V.cs, V.tl, Repr(V.cs, mats[mi]), ps[pi].cs, ps[pi].tl, Repr(ps[pi].cs, PMats(ps[pi])[qi])) }]
+                     /\ <<Repr(V.cs, mats[mi]), pi, Repr(ps[pi].cs, PMats(ps[pi])[qi])>> \in bad }]
 
 (* ---- layout ---- *)
 RECURSIVE AllStrings(_, _)
@@ -115,25 +120,35 @@ Near(s) == LET n == Len(s) IN
 PartsOf(s) == { <<s>> } \cup { << SubSeq(s, 1, k), SubSeq(s, k + 1, Len(s)) >> : k \in 1..(Len(s) - 1) }
 PartsRepr(parts) == NonEmpty([j \in 1..Len(parts) |-> Chunk("p", parts[j])])
 AbsOrd(s1, s2) == AbsCmp(s1, "nil", s2, "nil")
-CmpCase(p1, p2, AsIs) ==
+(* both orders on one memory image: <<walk of (p1, p2), walk of (p2, p1)>>, each [r, dev] *)
+CmpCase(p1, p2) ==
   LET w1 == WriteRepr(<<>>, PartsRepr(p1), Val("nil", 0))
       w2 == WriteRepr(w1.mem, PartsRepr(p2), Val("nil", 0))
-  IN WalkCmp(w2.mem, w1.root, w2.root, AsIs, 64)
-RECURSIVE Cat(_)
-Cat(parts) == IF parts = <<>> THEN <<>> ELSE Head(parts) \o Cat(Tail(parts))
+  IN << Walk(w2.mem, w1.root, w2.root, 64, FALSE), Walk(w2.mem, w2.root, w1.root, 64, FALSE) >>
 
+DevVector(p1, p2, s1, s2) ==
+  PrintT(ToJson([kind |-> "dev", p1 |-> p1, p2 |-> p2, ord |-> AbsOrd(s1, s2),
+                 exp |-> PairResult([cs |-> s1, tl |-> "nil"], Partner("layout", s2, "nil", "U"))]))
+
+(* the walk with the intended arithmetic decides like the abstract lists; where the code as it is leaves that path, say so *)
 CmpOk(s1) ==
   \A s2 \in Near(s1) : \A p1 \in PartsOf(s1) : \A p2 \in PartsOf(s2) :
-    /\ CmpCase(p1, p2, FALSE) = AbsOrd(s1, s2)
-    /\ CmpCase(p2, p1, FALSE) = AbsOrd(s2, s1)
-    /\ IF CmpCase(p1, p2, TRUE) # AbsOrd(s1, s2)
-       THEN PrintT(ToJson([kind |-> "dev", p1 |-> p1, p2 |-> p2, ord |-> AbsOrd(s1, s2), got |-> CmpCase(p1, p2, TRUE),
-                           exp |-> PairResult([cs |-> s1, tl |-> "nil"], Partner("layout", s2, "nil", "U"))]))
-       ELSE TRUE
-    /\ IF CmpCase(p2, p1, TRUE) # AbsOrd(s2, s1)
-       THEN PrintT(ToJson([kind |-> "dev", p1 |-> p2, p2 |-> p1, ord |-> AbsOrd(s2, s1), got |-> CmpCase(p2, p1, TRUE),
-                           exp |-> PairResult([cs |-> s2, tl |-> "nil"], Partner("layout", s1, "nil", "U"))]))
-       ELSE TRUE
+    LET c == CmpCase(p1, p2) IN
+    /\ c[1].r = AbsOrd(s1, s2)
+    /\ c[2].r = AbsOrd(s2, s1)
+    /\ (IF c[1].dev THEN DevVector(p1, p2, s1, s2) ELSE TRUE)
+    /\ (IF c[2].dev THEN DevVector(p2, p1, s2, s1) ELSE TRUE)
+
+(* the reproduction that led to the finding: "abcdefghij" against "abc" ++ "defghijkl" stored as two partial strings -- the *)
+(* code as it is continues in the second cell of the bytes of the first string instead of its tail cell                   *)
+KnownDeviation ==
+  LET s1 == <<97, 98, 99, 100, 101, 102, 103, 104, 105, 106>>
+      p2 == << <<97, 98, 99>>, <<100, 101, 102, 103, 104, 105, 106, 107, 108>> >>
+      w1 == WriteRepr(<<>>, PartsRepr(<<s1>>), Val("nil", 0))
+      w2 == WriteRepr(w1.mem, PartsRepr(p2), Val("nil", 0))
+  IN /\ Walk(w2.mem, w1.root, w2.root, 64, FALSE) = [r |-> "lt", dev |-> TRUE]
+     /\ WalkCmp(w2.mem, w1.root, w2.root, TRUE, 64) # "lt"
+     /\ Walk(w2.mem, w2.root, w1.root, 64, FALSE) = [r |-> "gt", dev |-> FALSE]
 
 (* ---- the model ---- *)
 VARIABLES phase, item
@@ -145,6 +160,7 @@ Next == /\ phase = "pick" /\ phase' = "case"
 
 Layout  == (phase = "case" /\ item.g = "lay") => LayoutOk(item.s)
 Compare == (phase = "case" /\ item.g = "cmp") => CmpOk(item.s)
+Known   == (phase = "pick") => KnownDeviation
 ValLaws == (phase = "case" /\ item.g = "val") =>
              /\ SplitLaw(item.v) /\ SortLaw(item.v)
              /\ \A j \in DOMAIN Partners(item.v) : OrderLaws(item.v, Partners(item.v)[j])
